@@ -23,14 +23,15 @@ static UNRECONCILED: AtomicU64 = AtomicU64::new(0);
 static REPAIR_WRITES: AtomicU64 = AtomicU64::new(0);
 static NODE_HEIGHT_DUP: AtomicU64 = AtomicU64::new(0);
 
-/// One letter of the alphabet: the action plus whether taking it here is a
-/// preemptive context switch (another replica acts while the current one is in
-/// the middle of an operation). Preemptions count as deviations.
+/// One letter of the alphabet: the action plus its structural deviation cost in
+/// the state where it is taken: +1 if it is a preemptive context switch (another
+/// replica acts while the current one is in the middle of an operation), +1 if it
+/// delivers a single call out of a join_all fan-out that still has several.
 #[derive(Clone, Debug, serde::Serialize, serde::Deserialize)]
 struct Letter {
     op: Op,
     #[serde(default)]
-    pre: bool,
+    extra: u32,
 }
 
 struct Managed {
@@ -45,6 +46,14 @@ struct C25 {
 }
 
 impl C25 {
+    fn structural(&self, w: &World, op: &Op) -> u32 {
+        if self.bound_preemptions {
+            w.structural_cost(op)
+        } else {
+            0
+        }
+    }
+
     fn build(&self, history: &[Op]) -> Result<World, Interf> {
         let mut w = World::new(self.cfg.clone())?;
         for op in history {
@@ -89,7 +98,7 @@ impl Subject for C25 {
 
     fn enabled(&self, m: &Managed) -> Vec<Letter> {
         let w = m.world.as_ref().unwrap();
-        w.enabled().into_iter().map(|op| Letter { pre: self.bound_preemptions && w.is_preemption(&op), op }).collect()
+        w.enabled().into_iter().map(|op| Letter { extra: self.structural(w, &op), op }).collect()
     }
 
     fn label(&self, l: &Letter) -> String {
@@ -113,8 +122,8 @@ impl Subject for C25 {
                 }
             }
             let w = m.world.as_mut().unwrap();
-            if self.bound_preemptions && w.is_preemption(op) != letter.pre {
-                machinery_failure(&format!("{}: letter {letter:?} disagrees with the world about being a preemption", self.cfg.name));
+            if self.structural(w, op) != letter.extra {
+                machinery_failure(&format!("{}: letter {letter:?} disagrees with the world about its structural cost", self.cfg.name));
             }
             match w.apply(op) {
                 Ok(obs) => {
@@ -141,11 +150,12 @@ impl Subject for C25 {
 
     fn deviation(&self, l: &Letter) -> u32 {
         let fault = match &l.op {
-            Op::Tick(_) | Op::Commit(_) | Op::GhostExec(_) | Op::Restart(_) | Op::Sync(_) => 0,
+            Op::Tick(_) | Op::Commit(_) | Op::GhostExec(_) | Op::Restart(_) | Op::Sync(_) | Op::ExpireAll | Op::Heal { .. } => 0,
             Op::Exec { fate, .. } => (*fate != Fate::Deliver) as u32,
+            Op::Batch { fates, .. } => fates.iter().filter(|f| **f != Fate::Deliver).count() as u32,
             _ => 1,
         };
-        fault + l.pre as u32
+        fault + l.extra
     }
 
     fn interesting(&self, l: &Letter, obs: &str) -> bool {
@@ -156,7 +166,17 @@ impl Subject for C25 {
         if std::env::var("VH_DEPTH").is_ok() {
             return vec![];
         }
-        ["Tick", "Exec", "Commit", "Sync", "Expire", "ExpireAll", "Crash", "Release"].iter().map(|s| s.to_string()).collect()
+        let mut v = vec!["Tick", "Exec", "Batch", "Commit", "Sync", "Expire", "ExpireAll", "Partition"];
+        if self.cfg.max_crashes > 0 {
+            v.extend(["Crash", "Restart"]);
+        }
+        if self.cfg.allow_release {
+            v.push("Release");
+        }
+        if self.cfg.budget > 0 {
+            v.push("WipeNode");
+        }
+        v.iter().map(|s| s.to_string()).collect()
     }
 }
 
@@ -178,19 +198,28 @@ fn configs(cli: &Cli) -> Vec<(Cfg, usize, u32, bool)> {
         max_crashes: 1,
         allow_release: true,
         allow_sync: true,
+        standby_until: 0,
+        fine_faults: false,
+        max_partitions: 1,
     };
     let mut v = vec![];
+    // standby: replica 0 produces `max_height` blocks alone (replica 1 follows over P2P), then both are free
+    let standby = Cfg { standby_until: 2, max_epoch: 2, ..base.clone() };
     match cli.tier {
         Tier::Quick => {
-            v.push((Cfg { name: "C25/r2n3b0/h2".into(), ..base.clone() }, 400, 2, true));
+            // every macro fault at every operation boundary, one height, one leader change
+            v.push((Cfg { name: "C25/r2n3b0/h1".into(), max_height: 1, max_epoch: 2, ..base.clone() }, 400, 1, true));
+            // fail-over after two blocks; the one deviation is a static cut or a lease that expires on one node
+            v.push((Cfg { name: "C25/r2n3b0/h2/standby".into(), max_crashes: 0, allow_release: false, ..standby.clone() }, 400, 1, true));
         }
         Tier::Thorough => {
-            v.push((Cfg { name: "C25/r2n3b0/h2".into(), ..base.clone() }, 400, 2, true));
-            v.push((Cfg { name: "C25/r2n3b0/h2/d3".into(), ..base.clone() }, 400, 3, true));
-            v.push((Cfg { name: "C25/r3n3b0/h2".into(), replicas: 3, ..base.clone() }, 400, 2, true));
-            v.push((Cfg { name: "C25/r2n3b1/h2".into(), budget: 1, ..base.clone() }, 400, 2, true));
-            v.push((Cfg { name: "C25/r2n3b0/h3/trim2".into(), stream_max_len: 2, exact_trim: true, max_height: 3, ..base.clone() }, 400, 2, true));
-            v.push((Cfg { name: "C25/r2n3b0/h1/free".into(), max_height: 1, max_epoch: 2, ..base.clone() }, 400, 1, false));
+            v.push((Cfg { name: "C25/r2n3b0/h2/standby/all".into(), ..standby.clone() }, 400, 1, true));
+            v.push((Cfg { name: "C25/r2n3b0/h1/fine".into(), max_height: 1, max_epoch: 2, fine_faults: true, ..base.clone() }, 400, 1, true));
+            v.push((Cfg { name: "C25/r2n3b0/h2".into(), ..base.clone() }, 400, 1, true));
+            v.push((Cfg { name: "C25/r3n3b0/h1".into(), replicas: 3, max_height: 1, max_epoch: 2, ..base.clone() }, 400, 1, true));
+            v.push((Cfg { name: "C25/r2n3b1/h2/standby".into(), budget: 1, ..standby.clone() }, 400, 1, true));
+            v.push((Cfg { name: "C25/r2n3b0/h3/standby/trim2".into(), stream_max_len: 2, exact_trim: true, max_height: 3, standby_until: 3, max_crashes: 0, allow_release: false, ..standby.clone() }, 400, 1, true));
+            v.push((Cfg { name: "C25/r2n3b0/h1/d2".into(), max_height: 1, max_epoch: 2, max_partitions: 2, ..base.clone() }, 400, 2, true));
         }
     }
     // debugging knobs (never set by ./check)
@@ -218,6 +247,12 @@ fn configs(cli: &Cli) -> Vec<(Cfg, usize, u32, bool)> {
         }
         if let Some(x) = env("VH_DEVS") {
             *devs = x as u32;
+        }
+        if let Some(x) = env("VH_STANDBY") {
+            c.standby_until = x as u32;
+        }
+        if let Some(x) = env("VH_FINE") {
+            c.fine_faults = x != 0;
         }
         if let Some(x) = env("VH_PRE") {
             *pre = x != 0;
@@ -254,6 +289,10 @@ fn main() {
             b = b.wall(w);
         } else if cli.tier == Tier::Thorough {
             b = b.wall(1400 / n_cfgs);
+        } else {
+            // the quick bound is sized to finish in well under a minute on an idle 16-core
+            // machine; on an overloaded one it must still finish (same verdict every time)
+            b = b.wall(1500);
         }
         let r = explore(&s, &b);
         println!("  frontier sizes: {:?}", r.frontier_sizes);
@@ -277,7 +316,7 @@ fn main() {
         }),
     );
     run.assume("mini-Lua and MiniRedis are trusted re-implementations of the Lua 5.1 subset and the Redis commands the six scripts use (no redis-server/Lua exists in the sandbox); they abort on anything outside that subset");
-    run.assume("interleaving bound: a preemptive context switch (another replica acts while one is in the middle of leader_state/publish/release) counts as one deviation, like a fault; late execution of straggler/ghost script calls, lease expiry and P2P sync are never preemptions");
+    run.assume("deviation = a fault letter, or a preemptive context switch (another replica acts while one is in the middle of leader_state/publish/release), or the delivery of a single reply out of a join_all fan-out that still has several outstanding (otherwise a fan-out is answered as one batch in node order, each call with its own fate); write_block calls of a publish are always answered one by one in any order; late execution of straggler/ghost calls and P2P sync cost nothing");
     run.assume("the replica driver (Tick/Commit/Sync) restates what PoA MainTask and the importer do around the adapter: leader_state(next) -> publish before local commit, publish error => release, reconciled blocks imported in order");
     run.assume("a timed-out / failed script call is presented to the client as an error reply (the adapter treats timeout and error alike); lease/node timeouts are set to one hour so real time never decides");
     run.finish();
@@ -300,6 +339,9 @@ mod tests {
             max_crashes: 1,
             allow_release: true,
             allow_sync: true,
+            standby_until: 0,
+            fine_faults: true,
+            max_partitions: 1,
         }
     }
 
@@ -343,7 +385,7 @@ mod bench {
     use super::*;
     #[test]
     fn bench_world() {
-        let cfg = Cfg { name: "t".into(), replicas: 2, nodes: 3, budget: 0, stream_max_len: 1000, exact_trim: false, max_height: 2, max_epoch: 5, max_crashes: 1, allow_release: true, allow_sync: true };
+        let cfg = Cfg { name: "t".into(), replicas: 2, nodes: 3, budget: 0, stream_max_len: 1000, exact_trim: false, max_height: 2, max_epoch: 5, max_crashes: 1, allow_release: true, allow_sync: true, standby_until: 0, fine_faults: true, max_partitions: 1 };
         let t = std::time::Instant::now();
         for _ in 0..50 {
             let w = World::new(cfg.clone()).unwrap();
@@ -431,7 +473,7 @@ mod directed {
     }
 
     fn cfg() -> Cfg {
-        Cfg { name: "t".into(), replicas: 2, nodes: 3, budget: 0, stream_max_len: 1000, exact_trim: false, max_height: 3, max_epoch: 9, max_crashes: 2, allow_release: true, allow_sync: true }
+        Cfg { name: "t".into(), replicas: 2, nodes: 3, budget: 0, stream_max_len: 1000, exact_trim: false, max_height: 3, max_epoch: 9, max_crashes: 2, allow_release: true, allow_sync: true, standby_until: 0, fine_faults: true, max_partitions: 1 }
     }
 
     /// Execute the queued call of replica r on node n whose description starts with `what`.
